@@ -29,6 +29,11 @@ P11 == <<"P", "P">>
 Prons5 == {<<>>, P1, P2, P3, <<"BAD">>}
 Prons7 == Prons5 \cup {P11, <<"P", "BAD">>}
 Prons4 == {<<>>, P1, P3, <<"BAD">>}
+\* for the context tables: every length 1..4, the same final pair (QQ after P) reached by words of 2, 3 and 4 phones
+P4 == <<"QQ", "QQ", "P", "QQ">>
+P22 == <<"QQ", "P">>
+PronsD == {P1, P2, P22, P3, P4, <<"QQ", "BAD">>}
+Sp4 == {sa, sa2, sb, sA}
 MCPhones == {"P", "QQ"}
 MCPhoneLen == ("P" :> 1) @@ ("QQ" :> 2) @@ ("BAD" :> 3)
 
@@ -41,6 +46,7 @@ DevEmptyWord == {"EmptyWord"}
 DevEmptyPron == {"EmptyPron"}
 DevPronBuf == {"PronBuf"}
 NoDev == {}
+DevRctx == {"RctxSecond"}      \* negative control (not what the code does)
 OnlyFalse == {FALSE}
 
 (* graph export for the edge tours: one line per generated transition *)
